@@ -243,6 +243,14 @@ class Engine:
         if c.startswith('b"'): return ('opaque', 'bytes')
         v = self.summaries.named_const(self, c)
         if v is not None: return v
+        # a `const` item of the crate
+        cands = [k for k in self.prog.consts if k == c or c.endswith('::' + k) or k.endswith('::' + c)]
+        if len(cands) == 1:
+            kind, ty, body = self.prog.consts[cands[0]]
+            if kind == 'value': return self.operand(st, fr, body)
+            return self.eval_promoted(st, body)
+        if [k for k in self.prog.statics if k == c or c.endswith('::' + k)]:
+            raise Unsupported('read of a static item: ' + c)
         raise Unsupported('const ' + c)
 
     def eval_promoted(self, st, body):
